@@ -18,10 +18,10 @@ RULE = ("a case is one generated input pushed through one real operator (and the
         "(stream, row parity, col parity, square?, #modes, #slices, index kind / shift kind / amplitude kind) with at least 3x3 pixels "
         "or a non-empty index list")
 TRUSTED = ["torch.fft / numpy.fft compute the defining DFT sums; torch index_add_ and advanced indexing (modelled, sampled)",
-           "float32 fftfreq in fourier_translation_operator and complex64 propagators: identities hold to float32 accuracy only (5e-4 rule, measured values in `measured`)"]
+           "fourier_translation_operator evaluates `-2j*pi*fftfreq` in float32/complex64 even for float64 positions, propagators are complex64: integer-shift = roll and the propagation identities hold to float32 accuracy only (5e-4 rule; measured ~4e-6, values in `measured`)"]
 ASSUMPTIONS = [
     "one model call handles one batch element; the batch/mode broadcasting of the torch code is exercised by the harness looping over the batch",
-    "Ptychography/Probe methods are called unbound on a minimal attribute stub (num_probes, num_slices, _propagators, roi_shape, probe_params, probe_tilt): the real function bodies run, no Ptychography instance is constructed",
+    "in the stub streams Ptychography/Probe methods are called unbound on a minimal attribute stub (num_probes, num_slices, _propagators, roi_shape, probe_params, probe_tilt): the real function bodies run on float64/complex128 data; the `instance` stream calls the same methods bound to a real single-slice Ptychography object built by props/ptycho_tiny.py",
     "mixed-state exactness predicate is evaluated only at pixels whose input far field is not exactly zero",
     "negative flat indices are outside the stated domain (torch indexing wraps them, index_add_ rejects them)",
 ]
@@ -106,8 +106,10 @@ def iarr(rng, shape, lo=-9, hi=9):
 
 
 def gen_shape(rng):
-    k = rng.weighted([("any", 6), ("square", 1), ("oddodd", 1), ("eveneven", 1), ("oddeven", 1)])
+    k = rng.weighted([("any", 6), ("square", 1), ("oddodd", 1), ("eveneven", 1), ("oddeven", 1), ("pow2", 1)])
     nr, nc = rng.randint(3, 12), rng.randint(3, 12)
+    if k == "pow2":
+        return rng.choice([4, 8]), rng.choice([4, 8])
     if k == "square":
         nc = nr
     elif k == "oddodd":
@@ -315,7 +317,7 @@ def s_gs(ctx, drv, I, case):
         if lhs != rhs or lhs2 != rhs2:
             ctx.pred_fail(f"adjoint:{kind}", "<gather(o,idx),p> != <o,scatter(p,idx)> (exact integers)", case,
                           observed=str((lhs, lhs2)), required=str((rhs, rhs2)))
-    ctx.sample({k: case[k] for k in ("stream", "H", "W", "S", "idx_kind", "idx_shape")}, limit=6)
+    ctx.sample({k: case[k] for k in ("stream", "rseed", "H", "W", "S", "idx_kind", "idx_shape")}, limit=1)
 
 
 # ----------------------------------------------------------------------------- stream: integer shifts = roll (exact model)
@@ -351,8 +353,10 @@ def s_shiftint(ctx, drv, I, case):
         ctx.disagree("roll-int", case, np.array(mre).tolist(), oracle.real.tolist(), "model roll2 != np.roll")
     if not np.array_equal(np.round(impl.real) + 1j * np.round(impl.imag), model):
         ctx.disagree("shift-int", case, np.array(mre).tolist(), np.round(impl.real).tolist(), "rounded fourier_shift_expand != model roll")
-    pred(ctx, f"shift-int-roll:{'real' if real_in else 'complex'}:{psig(nr, nc)}", "integer Fourier shift is not the circular roll", case, impl, oracle, TOL32, "shift-int=roll (float32 fftfreq)")
-    ctx.sample({k: case[k] for k in ("stream", "shape", "shift", "real_input")}, limit=6)
+    # NB: not sharper for power-of-two sizes either: `-2j*pi*kr` is evaluated in complex64 (pi rounded to float32)
+    pred(ctx, f"shift-int-roll:{'real' if real_in else 'complex'}:{psig(nr, nc)}", "integer Fourier shift is not the circular roll", case, impl, oracle,
+         TOL32, "shift-int=roll (complex64 phase ramp)")
+    ctx.sample({k: case[k] for k in ("stream", "rseed", "shape", "shift", "real_input")}, limit=2)
 
 
 # ----------------------------------------------------------------------------- stream: translation operator + sub-pixel shift
@@ -437,7 +441,7 @@ def s_shift(ctx, drv, I, case):
         y2 = back(I.pu.fourier_shift_expand(yb, conv(tpos, torch.float64)))[0]
         y12 = back(I.pu.fourier_shift_expand(xin, conv(pos[b:b + 1] + tpos, torch.float64)))[0]
         pred(ctx, f"shift-additive:{psig(nr, nc)}", "shift(shift(x,s),t) != shift(x,s+t)", case, y2, y12, TOL64, "shift additivity")
-    ctx.sample({k: case[k] for k in ("stream", "shape", "positions")}, limit=8)
+    ctx.sample({k: case[k] for k in ("stream", "rseed", "shape", "positions")}, limit=3)
 
 
 # ----------------------------------------------------------------------------- stream: propagators + propagation
@@ -504,7 +508,7 @@ def s_prop(ctx, drv, I, case):
     pred(ctx, f"prop-additive:{psig(nr, nc)}", "prop(prop(a,d1),d2) != prop(a,d1+d2)", case, p12, p3, TOL32, "propagation additivity (complex64 kernel)")
     pinv = I.Base._propagate_array(None, p1, Qt[3]).numpy()
     pred(ctx, f"prop-inverse:{psig(nr, nc)}", "prop(prop(a,d),-d) != a", case, pinv, a, TOL32, "propagation inverse (complex64 kernel)")
-    ctx.sample({k: case[k] for k in ("stream", "shape", "sampling", "energy", "tilt", "num_slices", "dz")}, limit=10)
+    ctx.sample({k: case[k] for k in ("stream", "rseed", "shape", "sampling", "energy", "tilt", "num_slices", "dz")}, limit=4)
 
 
 # ----------------------------------------------------------------------------- stream: multislice overlap, detector, pure-phase energy
@@ -581,7 +585,7 @@ def s_forward(ctx, drv, I, case):
         tol = TOL64 if S == 1 else 1e-5
         pred(ctx, f"purephase-energy:S{'1' if S == 1 else 'n'}:{psig(nr, nc)}", "summed predicted diffraction intensity != probe total intensity (pure-phase object)",
              case, inn.sum(axis=(1, 2)), np.full(B, ptot), tol, "pure-phase energy S=1" if S == 1 else "pure-phase energy S>1 (complex64 kernels)")
-    ctx.sample({k: case[k] for k in ("stream", "shape", "obj_shape", "slices", "modes", "batch", "pure_phase", "real_object")}, limit=14)
+    ctx.sample({k: case[k] for k in ("stream", "rseed", "shape", "obj_shape", "slices", "modes", "batch", "pure_phase", "real_object")}, limit=5)
 
 
 # ----------------------------------------------------------------------------- stream: Fourier projection
@@ -658,7 +662,7 @@ def s_proj(ctx, drv, I, case):
          np.where(good, det, A), A, TOL64, f"projection exactness via detector {sk}")
     P2 = I.Pty.fourier_projection(st, At.clone(), P.clone()).numpy()
     pred(ctx, f"proj-idempotent:{sk}:{key_par}", "Fourier projection is not idempotent", case, P2, Pn, TOL64, f"projection idempotence {sk}")
-    ctx.sample({k: case[k] for k in ("stream", "shape", "modes", "batch", "overlap_scale", "amp_kind", "overlap_kind")}, limit=18)
+    ctx.sample({k: case[k] for k in ("stream", "rseed", "shape", "modes", "batch", "overlap_scale", "amp_kind", "overlap_kind")}, limit=6)
 
 
 # ----------------------------------------------------------------------------- stream: bound methods of a real Ptychography instance
@@ -755,7 +759,7 @@ def s_instance(ctx, drv, I, case):
         r = ask(drv, {"op": "overlap_projection", "patches": [enc_img(pn[0, b])], "props": [], "probes": [enc_img(sn[m_, b]) for m_ in range(M)]})["ok"]
         md = dec_rows(ask(drv, {"op": "detector", "waves": r["overlap"]})["ok"])
         corr(ctx, "instance-forward", case, md, inten[b], TOL32)
-    ctx.sample({k: case[k] for k in ("stream", "shape", "modes", "scan")}, limit=20)
+    ctx.sample({k: case[k] for k in ("stream", "rseed", "shape", "modes", "scan")}, limit=7)
 
 
 STREAMS = {           # name: (function, quick count, thorough count)
